@@ -2,5 +2,6 @@ import NflowsModel.Audit.Tool
 import NflowsModel.Properties.C16
 import NflowsModel.Properties.C16D
 import NflowsModel.Properties.C16M
+import NflowsModel.Properties.C16L
 
 #audit_namespace Properties.C16
